@@ -358,6 +358,24 @@ def run(repo: Repo, rep, tier: str):
     rep.instance(rid3, "scan", {"functions": len(reach), "set_variables": n_sets})
     rep.floor(rid3, 1)
 
+    # ------------------------------------------------------------------ cleanup order
+    rid4 = "C11-R4"
+    rep.rule(rid4, "end-of-session cleanup of _isolated_backtest: store.reset() rebuilds the store from the installed routes and looks up "
+                   "config['env']['exchanges'][<route exchange>], so it must run while the session's configuration is still in place, "
+                   "i.e. before the reset_config() that restores the defaults (otherwise a custom exchange name raises KeyError)")
+    fn4 = repo.func(*ENTRY)
+    sims = [c.lineno for c in ast.walk(fn4) if isinstance(c, ast.Call) and SL.last(dotted(c.func) or "") == "simulator"]
+    if not sims:
+        raise AnalysisError("_isolated_backtest: simulator call not found")
+    after = [(c.lineno, norm(c.func)) for c in ast.walk(fn4) if isinstance(c, ast.Call) and c.lineno > max(sims) and norm(c.func) in ("store.reset", "reset_config")]
+    after.sort()
+    names4 = [n for _, n in after]
+    if "reset_config" in names4 and "store.reset" in names4 and names4.index("reset_config") < names4.index("store.reset"):
+        rep.violation(rid4, "cleanup-order", "_isolated_backtest: reset_config() runs before store.reset() at the end of a session: the store is rebuilt from the routes after the "
+                                             "session's exchange entries were removed from the configuration (KeyError for an exchange name that is not one of jesse's built-in ones)")
+    rep.instance(rid4, "epilogue", {"calls_after_simulator": names4})
+    rep.floor(rid4, 1)
+
     # ------------------------------------------------------------------ arguments unmodified
     rid2 = "C11-R2"
     rep.rule(rid2, "arguments are not mutated: the candle sets handed to the simulator / warm-up injection are deep copies of the "
